@@ -10,7 +10,7 @@
    byte-exact generator correspondence and judged on the reference machine. *)
 From Coq Require Import ZArith List String Bool.
 From Gigue Require Import Types Bits Isa Enc GenTables Builder BuilderTies Samplers Generator Machine MachineLemmas
-  SplitProofs FragProofs GenLemmas ImageSem CtorSpec C12Defs C12Proofs.
+  SplitProofs FragProofs GenLemmas ImageSem CtorSpec C12Defs C12Proofs GenWF GenWFProps SliceLemmas FloatSign GenWF2 BodyExec BodyBridge GenWF5 FrameExec CodeMem SwitchExec GenWF6 Witness.
 Import ListNotations.
 Open Scope Z_scope.
 
@@ -59,6 +59,42 @@ Theorem C11_pic_call_tagged_partial : forall L s A off h hit,
     (forall r, 0 <= r -> r <> 1 -> r <> c_FIXER_CMP_REG -> r <> hit -> rget s' r = rget s r).
 Proof. exact fixer_pic_call_reaches. Qed.
 
+(* PROVED (Layer B, FIXER leaf methods; GenWF6): every FIXER image, every method
+   without call sites: its EMITTED WORDS placed anywhere in the code region,
+   entered with its return address registered on top of the CFI stack (what the
+   tagged call leaves) and any other register contents (data register = data
+   base, sp 8-aligned with its frame in the stack region): the reference machine
+   runs exactly |method| - 1 steps - the check passes, the trap (ecall) is NOT
+   reached - pops exactly that tag, and returns to ra with sp, s0, the data
+   register and every non-usable register but t3 restored, memory untouched
+   outside the data image and its own frame slot.  `_partial`: methods without
+   call sites; the tagged call stubs are executed by C13_fixer_* for all offsets;
+   the composition along the call graph and tamper-trapping are not composed. *)
+Theorem C11_leaf_methods_checked_partial : forall c script img,
+  successful c script img -> c_variant c = GFixer ->
+  Forall (fun m => m_depth m = 0 -> m_calls m = 0 ->
+    forall L s rest,
+      let A := pc s in let n := List.length (m_instrs m) in let S := rget s 2 in
+      regions_ok L -> placement c L -> stack_placement L ->
+      code_at (mem s) A (map generate (m_instrs m)) ->
+      A mod 4 = 0 -> code_lo L <= A -> A + 4 * Z.of_nat n <= code_hi L -> A + 4 * Z.of_nat n < W64 ->
+      (halt_at L < A \/ A + 4 * Z.of_nat n <= halt_at L) ->
+      env_ok (gv c) L (c_data_reg c) s ->
+      cfi s = rget s 1 :: rest -> 0 <= rget s 1 < W64 ->
+      S mod 8 = 0 -> 24 <= S < W64 -> stk_lo L <= S - 24 -> S <= stk_hi L -> 0 <= rget s 8 < W64 ->
+      exists s', run (gv c) L (n - 1) s = (Next s', (n - 1)%nat) /\
+        pc s' = (u64 (rget s 1 + 0) / 2) * 2 /\
+        (forall r, 0 <= r -> wr c r = false -> r <> 28 -> rget s' r = rget s r) /\
+        same_outside L (dsz c) s s' S /\ dom s' = dom s /\ cfi s' = rest /\
+        env_ok (gv c) L (c_data_reg c) s')
+    (im_methods img).
+Proof. exact fixer_leaf_methods_run. Qed.
+
+Theorem C11_nonvacuous : exists img, successful wcfg_fixer wscript_fixer img.
+Proof. exact witness_fixer. Qed.
+
+Print Assumptions C11_leaf_methods_checked_partial.
+Print Assumptions C11_nonvacuous.
 Print Assumptions C11_returns_checked_partial.
 Print Assumptions C11_method_call_tagged_partial.
 Print Assumptions C11_pic_call_tagged_partial.
